@@ -70,7 +70,13 @@ struct xcmc_session *xcmc_open(pid_t creator_pid, int64_t sock_ref)
 
     char path[PATH_MAX];
 
-    ctl_derive_path(ctl_dir, creator_pid, sock_ref, path, sizeof(path));
+    struct sockaddr_un addr = {
+	.sun_family = AF_UNIX
+    };
+
+    if (ctl_derive_path(ctl_dir, creator_pid, sock_ref, path,
+			sizeof(addr.sun_path)) < 0)
+	return NULL;
 
     int fd;
     
@@ -79,10 +85,6 @@ struct xcmc_session *xcmc_open(pid_t creator_pid, int64_t sock_ref)
 
     if (set_tmo(fd, XCMC_TMO_US) < 0)
 	goto err_close;
-
-    struct sockaddr_un addr = {
-	.sun_family = AF_UNIX
-    };
 
     strcpy(addr.sun_path, path);
 
